@@ -512,6 +512,34 @@ inline void install_throwing_handler() {
 #endif
 }
 
+// deprecated facet: the policy's default (backward compatible) error handler
+// stays in place and forwards resolution errors to a throwing call_error
+template<class Pol>
+bool install_deprecated_throwing_handler() {
+#ifndef HX_THROW_FACET
+    if constexpr (std::is_base_of_v<
+                      policy::backward_compatible_error_handler<Pol>, Pol>) {
+        Pol::error =
+            policy::backward_compatible_error_handler<Pol>::default_error_handler;
+        Pol::call_error = [](const method_call_error& e, std::size_t arity,
+                             type_id* types) {
+            resolution_error re;
+            re.status = e.code;
+            re.method_name = e.method_name;
+            re.arity = arity;
+            for (std::size_t i = 0;
+                 i < arity && i < resolution_error::max_types; ++i)
+                re.types[i] = types[i];
+            g_err = error_type(re);
+            ++g_err_count;
+            throw Thrown{};
+        };
+        return true;
+    }
+#endif
+    return false;
+}
+
 // ---------------------------------------------------------------------------
 // build a registry in the real catalogs and update
 
